@@ -11,7 +11,16 @@
                   * `try: <one statement whose only operation is d.pop(k) / d[k] / del d[k]>` with a handler
                     for KeyError is read as the membership test it is: the path through the body carries
                     the fact `k in d`, the path through that handler `k not in d` (EAFP <-> LBYL).
+                  * every effect records where it happens (`effect.where`: the enclosing try bodies with
+                    what their handlers catch, the enclosing try statements that have a `finally`, the
+                    `finally` suites it lies in);
+                  * an `except ... as e` of a try whose body asks for a task's `.result()` / `.exception()`
+                    binds a symbol for an exception of arbitrary shape; every operation on it (or on a value
+                    derived from it) that is evaluated on the path and raises for some exceptions is logged as
+                    a 'mayraise' effect (ExcOps: shapes exception / args tuple / arbitrary element / message
+                    text ..., guarded uses discharged by the path conditions).
                   Helper calls it cannot follow are collected in `unfollowed`.
+  ExcOps          the may-raise analysis restricted to operations on a caught exception (see its docstring).
   Signature       the parameters of a method as its callers bind them (positional / keyword spellings of a
                   call coincide; keyword-only parameters are honoured); param_uses / assign_roles bind the
                   parameters of the anchored methods by *role* (what the body does with them), whatever
@@ -28,6 +37,7 @@ from __future__ import annotations
 
 import ast
 import copy
+import re
 from typing import Any, Iterable
 
 from ..engine.normalize import ANCHOR_NAMES, _strip_doc, inline_helpers
@@ -104,6 +114,558 @@ def lookup_probe(s: ast.Try) -> tuple[ast.expr, ast.expr, ast.ExceptHandler] | N
     return None
 
 
+# --------------------------------------------------------------------------------------------- may-raise on a caught exception
+# Shapes of values derived from a caught exception.  The analysis is a may-raise effect analysis *restricted to
+# operations on the exception value*: an exception of the finished task is data of arbitrary shape (any class,
+# any `args`, any message), so an operation is partial when some exception object makes it raise.  Calls of
+# unknown functions that merely receive the value are assumed total (logging formats lazily and swallows its
+# own formatting errors); private helpers are followed by the walker, so their bodies are seen.
+EXC, OPT, TB, ARGS, ANY, STR, STRS, STRS1, PARTS, TYPE, DICT, INFO = (
+    "exception", "exception-or-None", "traceback-or-None", "args-tuple", "arbitrary-object", "str", "list-of-str",
+    "non-empty-list-of-str", "3-tuple-of-str", "exception-class", "attribute-dict", "exc_info-triple")
+_SEQ = (ARGS, STR, STRS, STRS1, PARTS)
+_OPAQUE = (EXC, OPT, TB, ANY, TYPE)            # neither subscriptable nor iterable nor a number, for all we know
+_EXC_ATTRS = {"args": ARGS, "__cause__": OPT, "__context__": OPT, "__traceback__": TB, "__class__": TYPE,
+              "__dict__": DICT, "__doc__": ANY, "__module__": STR, "with_traceback": None, "add_note": None}
+_STR_TO_STR = {"strip", "lstrip", "rstrip", "lower", "upper", "title", "capitalize", "casefold", "swapcase", "replace",
+               "removeprefix", "removesuffix", "expandtabs", "center", "ljust", "rjust", "zfill", "translate"}
+_PCT = re.compile(r"%(?:\((\w+)\))?[#0\- +]*(\*|\d+)?(?:\.(\*|\d+))?[hlL]?([diouxXeEfFgGcrsa%])")
+_FIELD = re.compile(r"^([^.\[]*)((?:\.[A-Za-z_]\w*|\[[^\]]*\])*)$")
+_FIELD_STEP = re.compile(r"\.([A-Za-z_]\w*)|\[([^\]]*)\]")
+
+
+def cond_atoms(test: ast.AST, outcome: bool) -> list[tuple[ast.AST, bool]]:
+    """The atomic facts a condition with the given outcome establishes (nothing for a disjunction)."""
+    if isinstance(test, ast.UnaryOp) and isinstance(test.op, ast.Not):
+        return cond_atoms(test.operand, not outcome)
+    if isinstance(test, ast.BoolOp):
+        if isinstance(test.op, ast.And) == outcome:
+            return [f for v in test.values for f in cond_atoms(v, outcome)]
+        return []
+    return [(test, outcome)]
+
+
+def _int_const(e: ast.AST | None) -> int | None:
+    if isinstance(e, ast.Constant) and isinstance(e.value, int) and not isinstance(e.value, bool):
+        return e.value
+    if isinstance(e, ast.UnaryOp) and isinstance(e.op, ast.USub):
+        v = _int_const(e.operand)
+        return None if v is None else -v
+    return None
+
+
+_MIRROR = {ast.Lt: ast.Gt, ast.Gt: ast.Lt, ast.LtE: ast.GtE, ast.GtE: ast.LtE, ast.Eq: ast.Eq, ast.NotEq: ast.NotEq}
+
+
+def _len_facts(t: str, facts: Iterable[tuple[ast.AST, bool]]) -> tuple[int, int | None]:
+    """(guaranteed minimum length, exact length if known) of the value whose text is `t`."""
+    low, exact = 0, None
+    for a, o in facts:
+        txt = u(a)
+        if o and txt in (t, f"len({t})"):
+            low = max(low, 1)
+        if not (isinstance(a, ast.Compare) and len(a.ops) == 1):
+            continue
+        left, op, right = a.left, type(a.ops[0]), a.comparators[0]
+        if u(right) == f"len({t})" and _int_const(left) is not None and op in _MIRROR:
+            left, op, right = right, _MIRROR[op], left
+        n = _int_const(right)
+        if u(left) == f"len({t})" and n is not None:
+            if op is ast.Gt and o or op is ast.LtE and not o:
+                low = max(low, n + 1)
+            elif op is ast.GtE and o or op is ast.Lt and not o:
+                low = max(low, n)
+            elif op is ast.Eq and o or op is ast.NotEq and not o:
+                low, exact = max(low, n), n
+            elif n == 0 and (op is ast.NotEq and o or op is ast.Eq and not o):
+                low = max(low, 1)
+        elif u(left) == t and u(right) in ("()", "''", '""', "[]") and (
+                op is ast.NotEq and o or op is ast.Eq and not o):
+            low = max(low, 1)
+    return low, exact
+
+
+def _not_none(t: str, facts: Iterable[tuple[ast.AST, bool]]) -> bool:
+    for a, o in facts:
+        if o and u(a) == t:
+            return True
+        if isinstance(a, ast.Compare) and len(a.ops) == 1 and {u(a.left), u(a.comparators[0])} == {t, "None"}:
+            if isinstance(a.ops[0], (ast.IsNot, ast.NotEq)) == o and isinstance(a.ops[0], (ast.Is, ast.IsNot, ast.Eq, ast.NotEq)):
+                return True
+        if o and _isinstance_of(a, t) is not None:
+            return True
+    return False
+
+
+def _isinstance_of(a: ast.AST, t: str) -> str | None:
+    """The class text when the atom is `isinstance(<t>, C)`."""
+    if isinstance(a, ast.Call) and isinstance(a.func, ast.Name) and a.func.id == "isinstance" and len(a.args) == 2 \
+            and u(a.args[0]) == t:
+        return u(a.args[1])
+    return None
+
+
+def _has_attr(t: str, name: str, facts: Iterable[tuple[ast.AST, bool]]) -> bool:
+    for a, o in facts:
+        if not o:
+            continue
+        if _isinstance_of(a, t) is not None:
+            return True         # an attribute of the class that was tested for
+        if isinstance(a, ast.Call) and isinstance(a.func, ast.Name) and a.func.id == "hasattr" and len(a.args) == 2 \
+                and u(a.args[0]) == t and isinstance(a.args[1], ast.Constant) and a.args[1].value == name:
+            return True
+    return False
+
+
+def _key_in(d: str, k: str, facts: Iterable[tuple[ast.AST, bool]]) -> bool:
+    for a, o in facts:
+        if isinstance(a, ast.Compare) and len(a.ops) == 1 and u(a.left) == k and u(a.comparators[0]) in (d, f"{d}.keys()") \
+                and isinstance(a.ops[0], (ast.In, ast.NotIn)) and isinstance(a.ops[0], ast.In) == o:
+            return True
+    return False
+
+
+class ExcOps:
+    """Operations on a caught exception (and on values derived from it) that can themselves raise, depending
+    on the shape of the exception.  `scan(expr, facts)` -> [(node, error classes, reason)] for the operations
+    *evaluated here* (sub-expressions carrying `_inlined` were evaluated where they were bound); `facts` are
+    the (atom, outcome) conditions known to hold, which discharge guarded uses (`e.args[0] if e.args else ..`,
+    `len(e.args) > 1`, `x is not None`, `hasattr(e, 'code')`, `isinstance(e, C)`, `k in vars(e)`)."""
+
+    def __init__(self, sources: set[str]) -> None:
+        self.sources = sources      # names of the symbols that stand for a caught exception
+        self.out: list[tuple[ast.AST, tuple[str, ...], str]] = []
+
+    def scan(self, e: ast.AST, facts: Iterable[tuple[ast.AST, bool]]) -> list[tuple[ast.AST, tuple[str, ...], str]]:
+        self.out = []
+        self.sh(e, {}, tuple(facts), True)
+        return self.out
+
+    def shape(self, e: ast.AST, facts: Iterable[tuple[ast.AST, bool]] = ()) -> str | None:
+        keep, self.out = self.out, []
+        try:
+            return self.sh(e, {}, tuple(facts), False)
+        finally:
+            self.out = keep
+
+    # ------------------------------------------------------------------
+    def hit(self, rep: bool, node: ast.AST, errors: tuple[str, ...], why: str) -> None:
+        if rep:
+            self.out.append((node, errors, why))
+
+    @staticmethod
+    def combine(shapes: list[str | None]) -> str | None:
+        kinds = set(shapes)
+        if len(kinds) == 1:
+            return shapes[0]
+        return ANY if kinds - {None, STR} else None
+
+    def narrow(self, e: ast.AST, s: str | None, facts: tuple[tuple[ast.AST, bool], ...]) -> str | None:
+        if s in (OPT, TB) and _not_none(u(e), facts):
+            return EXC if s == OPT else None
+        if s == ANY:
+            t = u(e)
+            for a, o in facts:
+                c = _isinstance_of(a, t) if o else None
+                if c is not None:
+                    return STR if c == "str" else None
+        return s
+
+    def sh(self, e: ast.AST | None, env: dict[str, str | None], facts: tuple[tuple[ast.AST, bool], ...],  # noqa: C901
+           rep: bool) -> str | None:
+        if e is None:
+            return None
+        if getattr(e, "_inlined", False):
+            rep = False
+        if isinstance(e, ast.Name):
+            return EXC if e.id in self.sources else env.get(e.id)
+        if isinstance(e, ast.Constant):
+            return STR if isinstance(e.value, str) else None
+        if isinstance(e, ast.Lambda):
+            return None             # not evaluated here
+        if isinstance(e, ast.Attribute):
+            return self.narrow(e, self.attr(e, self.sh(e.value, env, facts, rep), facts, rep), facts)
+        if isinstance(e, ast.Subscript):
+            return self.narrow(e, self.subscript(e, env, facts, rep), facts)
+        if isinstance(e, ast.Call):
+            return self.narrow(e, self.call(e, env, facts, rep), facts)
+        if isinstance(e, ast.Starred):
+            s = self.sh(e.value, env, facts, rep)
+            if s in _OPAQUE:
+                self.hit(rep, e, ("TypeError",), f"`*` over a value that need not be iterable ({s})")
+            return s
+        if isinstance(e, ast.NamedExpr):
+            return self.sh(e.value, env, facts, rep)
+        if isinstance(e, ast.IfExp):
+            self.sh(e.test, env, facts, rep)
+            a = self.sh(e.body, env, facts + tuple(cond_atoms(e.test, True)), rep)
+            b = self.sh(e.orelse, env, facts + tuple(cond_atoms(e.test, False)), rep)
+            return self.combine([a, b])
+        if isinstance(e, ast.BoolOp):
+            shapes, known = [], facts
+            for v in e.values:
+                shapes.append(self.sh(v, env, known, rep))
+                known = known + tuple(cond_atoms(v, isinstance(e.op, ast.And)))
+            return self.combine(shapes)
+        if isinstance(e, ast.UnaryOp):
+            s = self.sh(e.operand, env, facts, rep)
+            if not isinstance(e.op, ast.Not) and s is not None:
+                self.hit(rep, e, ("TypeError",), f"arithmetic on a value derived from the exception ({s})")
+            return None
+        if isinstance(e, ast.BinOp):
+            return self.binop(e, env, facts, rep)
+        if isinstance(e, ast.Compare):
+            shapes = [self.sh(x, env, facts, rep) for x in [e.left] + list(e.comparators)]
+            for i, op in enumerate(e.ops):
+                if isinstance(op, (ast.Lt, ast.LtE, ast.Gt, ast.GtE)) and (
+                        {shapes[i], shapes[i + 1]} & ({DICT} | set(_OPAQUE))):
+                    self.hit(rep, e, ("TypeError",), "ordering comparison on a value of arbitrary type taken from the exception")
+                elif isinstance(op, (ast.In, ast.NotIn)) and shapes[i + 1] in _OPAQUE:
+                    self.hit(rep, e, ("TypeError",), f"membership test in a value that need not be a container ({shapes[i + 1]})")
+            return None
+        if isinstance(e, ast.JoinedStr):
+            for v in e.values:
+                if isinstance(v, ast.FormattedValue):
+                    s = self.sh(v.value, env, facts, rep)
+                    spec = v.format_spec
+                    if spec is not None:
+                        self.sh(spec, env, facts, rep)
+                    if spec is not None and getattr(spec, "values", None) and v.conversion == -1 and s not in (None, STR):
+                        self.hit(rep, v, ("TypeError",), f"a format spec applied to a value that need not support it ({s}); "
+                                 "object.__format__ rejects a non-empty spec")
+            return STR
+        if isinstance(e, ast.FormattedValue):
+            self.sh(e.value, env, facts, rep)
+            return STR
+        if isinstance(e, (ast.ListComp, ast.SetComp, ast.GeneratorExp, ast.DictComp)):
+            return self.comprehension(e, env, facts, rep)
+        for c in ast.iter_child_nodes(e):
+            if isinstance(c, (ast.expr, ast.keyword, ast.Slice)):
+                self.sh(c.value if isinstance(c, ast.keyword) else c, env, facts, rep)
+        return None
+
+    # ------------------------------------------------------------------
+    def attr(self, e: ast.Attribute, sv: str | None, facts: tuple[tuple[ast.AST, bool], ...], rep: bool) -> str | None:
+        a = e.attr
+        if sv is None or sv in _SEQ or sv in (DICT, INFO):
+            return None             # a method of str / tuple / list / dict: judged where it is called
+        if sv in (OPT, TB):
+            self.hit(rep, e, ("AttributeError",), f"`.{a}` on a value that is None when there is no exception / no cause / "
+                     f"no traceback ({sv})")
+            if sv == TB:
+                return None
+        if sv in (EXC, OPT):
+            if a in _EXC_ATTRS:
+                return _EXC_ATTRS[a]
+            if a.startswith("__") and a.endswith("__") and a != "__notes__":
+                return None         # object / BaseException protocol
+            if not _has_attr(u(e.value), a, facts):
+                self.hit(rep, e, ("AttributeError",), f"`.{a}` is not an attribute every exception has")
+            return ANY
+        if sv == TYPE:
+            if a in ("__name__", "__qualname__", "__module__"):
+                return STR
+            if (a.startswith("__") and a.endswith("__")) or a == "mro":
+                return None
+            if not _has_attr(u(e.value), a, facts):
+                self.hit(rep, e, ("AttributeError",), f"`.{a}` is not an attribute every exception class has")
+            return ANY
+        if sv == ANY:
+            if not _has_attr(u(e.value), a, facts):
+                self.hit(rep, e, ("AttributeError",), f"`.{a}` on an object of arbitrary type taken from the exception")
+            return ANY
+        return None
+
+    def subscript(self, e: ast.Subscript, env: dict[str, str | None], facts: tuple[tuple[ast.AST, bool], ...],
+                  rep: bool) -> str | None:
+        sv = self.sh(e.value, env, facts, rep)
+        idx = e.slice
+        if isinstance(idx, ast.Slice):
+            for part in (idx.lower, idx.upper, idx.step):
+                self.sh(part, env, facts, rep)
+            if sv in _SEQ:
+                return {STRS1: STRS, PARTS: STRS}.get(sv, sv)
+            if sv is not None:
+                self.hit(rep, e, ("TypeError",), f"slice of a value that need not be a sequence ({sv})")
+                return ANY
+            return None
+        self.sh(idx, env, facts, rep)
+        if sv is None:
+            return None
+        t = u(e.value)
+        if sv in _SEQ:
+            i = _int_const(idx)
+            low = max({STRS1: 1, PARTS: 3}.get(sv, 0), _len_facts(t, facts)[0])
+            if i is None or (i + 1 if i >= 0 else -i) > low:
+                what = {ARGS: "an exception built without arguments (`asyncio.TimeoutError()`, a bare `raise ValueError`) "
+                              "has `args == ()`", STR: "the message of an exception can be empty"}.get(
+                    sv, "the text of an exception can be empty / lack the separator")
+                self.hit(rep, e, ("IndexError",), f"index into a sequence of unknown length: {what}")
+            return ANY if sv == ARGS else STR
+        if sv == DICT:
+            if not _key_in(t, u(idx), facts):
+                self.hit(rep, e, ("KeyError",), "key lookup in the attributes of an exception of arbitrary class")
+            return ANY
+        if sv == INFO:
+            return {0: TYPE, 1: EXC, 2: None}.get(_int_const(idx), ANY)  # type: ignore[arg-type]
+        self.hit(rep, e, ("TypeError", "IndexError", "KeyError"), f"subscript of a value that need not support it ({sv})")
+        return ANY
+
+    def elem(self, e: ast.AST, s: str | None, rep: bool) -> str | None:
+        """Shape of the elements when a value of shape `s` is iterated."""
+        if s in _OPAQUE:
+            self.hit(rep, e, ("TypeError",), f"iteration over a value that need not be iterable ({s})")
+            return ANY
+        return {ARGS: ANY, STR: STR, STRS: STR, STRS1: STR, PARTS: STR, DICT: STR}.get(s)  # type: ignore[arg-type]
+
+    def comprehension(self, e: Any, env: dict[str, str | None], facts: tuple[tuple[ast.AST, bool], ...],
+                      rep: bool) -> str | None:
+        env = dict(env)
+        for g in e.generators:
+            el = self.elem(g.iter, self.sh(g.iter, env, facts, rep), rep)
+            for n in ast.walk(g.target):
+                if isinstance(n, ast.Name):
+                    env[n.id] = el if g.target is n else None
+            for c in g.ifs:
+                self.sh(c, env, facts, rep)
+                facts = facts + tuple(cond_atoms(c, True))
+        if isinstance(e, ast.DictComp):
+            self.sh(e.key, env, facts, rep)
+            self.sh(e.value, env, facts, rep)
+            return None
+        s = self.sh(e.elt, env, facts, rep)
+        return STRS if s == STR else ARGS if s is not None else None
+
+    def binop(self, e: ast.BinOp, env: dict[str, str | None], facts: tuple[tuple[ast.AST, bool], ...],
+              rep: bool) -> str | None:
+        ls = self.sh(e.left, env, facts, rep)
+        if isinstance(e.op, ast.Mod) and ls == STR:
+            if not (isinstance(e.left, ast.Constant) and isinstance(e.left.value, str)):
+                self.sh(e.right, env, facts, rep)
+                if not isinstance(e.left, (ast.JoinedStr, ast.Constant)):
+                    self.hit(rep, e, ("ValueError", "TypeError", "KeyError"),
+                             "text taken from the exception is used as a %-format string")
+                return STR
+            specs = [m for m in _PCT.finditer(e.left.value) if m.group(4) != "%"]
+            right = e.right
+            if isinstance(right, ast.Tuple):
+                shapes = [self.sh(x, env, facts, rep) for x in right.elts]
+                for m, s in zip(specs, shapes):
+                    if m.group(4) not in "sra" and s is not None:
+                        self.hit(rep, e, ("TypeError",), f"`%{m.group(4)}` applied to a value derived from the exception ({s})")
+                return STR
+            rs = self.sh(right, env, facts, rep)
+            if rs == ARGS and _len_facts(u(right), facts)[1] != len(specs):
+                self.hit(rep, e, ("TypeError",), "`%` with the exception's `args` tuple on the right: the number of "
+                         "arguments of an arbitrary exception need not match the placeholders")
+            elif rs == DICT:
+                for m in specs:
+                    if m.group(1) and not _key_in(u(right), repr(m.group(1)), facts):
+                        self.hit(rep, e, ("KeyError",), f"`%({m.group(1)})` looked up in the attributes of an "
+                                 "exception of arbitrary class")
+            elif rs is not None and rs != ARGS:
+                for m in specs:
+                    if m.group(4) not in "sra":
+                        self.hit(rep, e, ("TypeError",), f"`%{m.group(4)}` applied to a value derived from the exception ({rs})")
+            return STR
+        rs = self.sh(e.right, env, facts, rep)
+        if {ls, rs} & ({DICT} | set(_OPAQUE)):
+            self.hit(rep, e, ("TypeError",), "arithmetic / concatenation with a value of arbitrary type taken from the "
+                     f"exception ({ls if ls in _OPAQUE or ls == DICT else rs})")
+            return ANY
+        if ls == STR and rs == STR and isinstance(e.op, ast.Add):
+            return STR
+        if ls == STR and isinstance(e.op, ast.Mult):
+            return STR
+        return None
+
+    # ------------------------------------------------------------------
+    def call(self, e: ast.Call, env: dict[str, str | None], facts: tuple[tuple[ast.AST, bool], ...],  # noqa: C901
+             rep: bool) -> str | None:
+        f = e.func
+        pos = [self.sh(a, env, facts, rep) for a in e.args]
+        kws = {k.arg: self.sh(k.value, env, facts, rep) for k in e.keywords}
+        plain = not any(isinstance(a, ast.Starred) for a in e.args) and None not in kws
+        if isinstance(f, ast.Name) and f.id not in env:
+            name = f.id
+            s0 = pos[0] if pos else None
+            if name in ("str", "repr", "ascii"):
+                return STR
+            if name == "format":
+                if len(e.args) == 2 and s0 not in (None, STR) and not (
+                        isinstance(e.args[1], ast.Constant) and e.args[1].value == ""):
+                    self.hit(rep, e, ("TypeError",), f"a format spec applied to a value that need not support it ({s0})")
+                return STR
+            if name == "type" and len(e.args) == 1:
+                return TYPE if s0 is not None else None
+            if name == "vars" and len(e.args) == 1 and s0 is not None:
+                if s0 != EXC:
+                    self.hit(rep, e, ("TypeError",), f"vars() of a value that need not have a __dict__ ({s0})")
+                return DICT
+            if name == "len" and plain and s0 in _OPAQUE:
+                self.hit(rep, e, ("TypeError",), f"len() of a value that need not be sized ({s0})")
+                return None
+            if name in ("int", "float", "complex", "ord", "chr") and s0 is not None:
+                self.hit(rep, e, ("ValueError", "TypeError"), f"{name}() of a value derived from the exception ({s0})")
+                return None
+            if name == "iter" and len(e.args) == 1:
+                if s0 in _OPAQUE:
+                    self.hit(rep, e, ("TypeError",), f"iteration over a value that need not be iterable ({s0})")
+                return s0
+            if name == "next" and plain and s0 is not None:
+                el = self.elem(e.args[0], s0, rep)
+                if len(e.args) == 1:
+                    src = e.args[0]
+                    src = src.args[0] if isinstance(src, ast.Call) and u(src.func) == "iter" and len(src.args) == 1 else src
+                    low = max({STRS1: 1, PARTS: 3}.get(s0, 0), _len_facts(u(src), facts)[0])
+                    if low < 1 or isinstance(src, (ast.GeneratorExp, ast.ListComp)):
+                        self.hit(rep, e, ("StopIteration",), "next() without a default on a sequence that can be empty")
+                    return el
+                return self.combine([el, pos[1]])
+            if name in ("min", "max") and plain and len(e.args) == 1 and "default" not in kws and s0 in _SEQ:
+                if max({STRS1: 1, PARTS: 3}.get(s0, 0), _len_facts(u(e.args[0]), facts)[0]) < 1:
+                    self.hit(rep, e, ("ValueError",), f"{name}() without a default on a sequence that can be empty")
+                return self.elem(e.args[0], s0, False)
+            if name == "getattr" and plain and len(e.args) >= 2 and s0 is not None:
+                if len(e.args) == 3:
+                    return ANY
+                if isinstance(e.args[1], ast.Constant) and isinstance(e.args[1].value, str):
+                    synth = ast.Attribute(value=e.args[0], attr=e.args[1].value, ctx=ast.Load())
+                    keep, self.out = self.out, []
+                    r = self.attr(synth, s0, facts, rep)
+                    found, self.out = self.out, keep
+                    for _n, errs, why in found:
+                        self.hit(rep, e, errs, why)
+                    return r
+                if s0 in (EXC, OPT, ANY, TYPE):
+                    self.hit(rep, e, ("AttributeError",), "getattr() without a default on a value derived from the exception")
+                return ANY
+            if name in ("list", "tuple", "sorted", "reversed", "set", "frozenset") and len(e.args) == 1 and s0 is not None:
+                el = self.elem(e.args[0], s0, rep)
+                return STRS if el == STR else ARGS
+            if name == "map" and len(e.args) == 2 and pos[1] is not None:
+                self.elem(e.args[1], pos[1], rep)
+                return STRS if u(e.args[0]) in ("str", "repr", "ascii") else None
+            return None
+        if not isinstance(f, ast.Attribute):
+            self.sh(f, env, facts, rep)
+            return None
+        m = f.attr
+        if m == "exc_info" and u(f.value) == "sys" and not e.args:
+            return INFO
+        rv = self.sh(f.value, env, facts, rep)
+        if m == "exception" and not e.args and not e.keywords and rv is None:
+            return OPT              # <task>.exception(): None when the task ended normally
+        s0 = pos[0] if pos else None
+        if rv == STR:
+            if m == "join" and len(e.args) == 1 and s0 in (ARGS, ANY, EXC, OPT, TYPE):
+                self.hit(rep, e, ("TypeError",), "str.join over values of arbitrary type taken from the exception "
+                         "(an element that is not a str)")
+                return STR
+            if m in ("format", "format_map"):
+                self.format_call(e, f.value, pos, kws, env, facts, rep)
+                return STR
+            if m in ("index", "rindex"):
+                self.hit(rep, e, ("ValueError",), f"str.{m}() raises when the text of the exception lacks the substring")
+                return None
+            if m in ("split", "rsplit"):
+                sep = e.args[0] if e.args else next((k.value for k in e.keywords if k.arg == "sep"), None)
+                return STRS1 if sep is not None and not (isinstance(sep, ast.Constant) and sep.value is None) else STRS
+            if m in ("partition", "rpartition"):
+                return PARTS
+            if m == "splitlines":
+                return STRS
+            return STR if m in _STR_TO_STR or m == "join" else None
+        if rv in (ARGS, STRS, STRS1, PARTS):
+            if m == "index":
+                self.hit(rep, e, ("ValueError",), "index() raises when the element is not there")
+            return None
+        if rv == DICT:
+            if m == "pop" and len(e.args) == 1 and not _key_in(u(f.value), u(e.args[0]), facts):
+                self.hit(rep, e, ("KeyError",), "pop() without a default on the attributes of an exception of arbitrary class")
+            return ANY if m in ("get", "pop", "setdefault") else None
+        if rv in (EXC, OPT, TB, ANY, TYPE):
+            r = self.attr(f, rv, facts, rep)
+            if rv in (EXC, OPT) and m == "with_traceback":
+                return EXC
+            if m in ("__str__", "__repr__"):
+                return STR
+            return ANY if r == ANY else None
+        return None
+
+    def format_call(self, e: ast.Call, fmt: ast.AST, pos: list[str | None], kws: dict[str | None, str | None],  # noqa: C901
+                    env: dict[str, str | None], facts: tuple[tuple[ast.AST, bool], ...], rep: bool) -> None:
+        import string
+
+        star = next((i for i, a in enumerate(e.args) if isinstance(a, ast.Starred)), None)
+        spread = any(k.arg is None and kws[None] == DICT for k in e.keywords) or (
+            e.func.attr == "format_map" and bool(pos) and pos[0] == DICT)  # type: ignore[attr-defined]
+        if not (isinstance(fmt, ast.Constant) and isinstance(fmt.value, str)):
+            if not isinstance(fmt, ast.JoinedStr):
+                self.hit(rep, e, ("KeyError", "IndexError", "ValueError"),
+                         "text taken from the exception is used as a str.format template")
+            return
+        try:
+            fields = [(n, spec, conv) for _lit, n, spec, conv in string.Formatter().parse(fmt.value) if n is not None]
+        except ValueError:
+            return
+        auto = 0
+        for name, spec, conv in fields:
+            mm = _FIELD.match(name)
+            if mm is None:
+                continue
+            head, rest = mm.group(1), mm.group(2)
+            if head == "":
+                head, auto = str(auto), auto + 1
+            base: ast.AST | None = None
+            if head.isdigit():
+                i = int(head)
+                if star is not None and i >= star:
+                    sv = pos[star]
+                    if sv in _SEQ and _len_facts(u(e.args[star].value), facts)[0] < i - star + 1:  # type: ignore[attr-defined]
+                        self.hit(rep, e, ("IndexError",), f"field {{{name}}} is taken from `*` over a sequence derived from the "
+                                 "exception, which can be shorter (an exception built without arguments has `args == ()`)")
+                    continue
+                if e.func.attr == "format" and i < len(e.args):  # type: ignore[attr-defined]
+                    base = e.args[i]
+            else:
+                kw = next((k.value for k in e.keywords if k.arg == head), None)
+                if kw is not None:
+                    base = kw
+                elif spread:
+                    d = next((k.value for k in e.keywords if k.arg is None), e.args[0] if e.args else None)
+                    if d is None or not _key_in(u(d), repr(head), facts):
+                        self.hit(rep, e, ("KeyError",), f"field {{{name}}} is looked up in the attributes of an exception of "
+                                 "arbitrary class (missing key)")
+                    continue
+            if base is None:
+                continue
+            node: ast.AST = base
+            for am, im in _FIELD_STEP.findall(rest):
+                node = ast.Attribute(value=node, attr=am, ctx=ast.Load()) if am else ast.Subscript(
+                    value=node, slice=ast.Constant(int(im) if im.lstrip("-").isdigit() else im), ctx=ast.Load())
+            keep, self.out = self.out, []
+            s = self.sh(node, env, facts, rep) if node is not base else self.sh(base, env, facts, False)
+            found, self.out = self.out, keep
+            for _n, errs, why in found:
+                self.hit(rep, e, errs, f"field {{{name}}}: {why}")
+            if spec and conv is None and s not in (None, STR):
+                self.hit(rep, e, ("TypeError",), f"field {{{name}}}: a format spec applied to a value that need not support it ({s})")
+
+
+_CATCHES = {"IndexError": {"IndexError", "LookupError"}, "KeyError": {"KeyError", "LookupError"},
+            "StopIteration": {"StopIteration"}, "AttributeError": {"AttributeError"}, "TypeError": {"TypeError"},
+            "ValueError": {"ValueError"}}
+
+
+def caught_by(errors: Iterable[str], names: Iterable[str]) -> bool:
+    """Do handlers for the exception classes `names` catch every one of `errors`?"""
+    have = {n.split(".")[-1] for n in names}
+    if have & {"Exception", "BaseException"}:
+        return True
+    return all(have & _CATCHES.get(x, {x}) for x in errors)
+
+
 class FollowExec(SymExec):
     def __init__(self, prog: Program, fn: FuncInfo, max_depth: int = 4, max_paths: int = 2048,
                  anchors: Iterable[str] = ()) -> None:
@@ -113,6 +675,13 @@ class FollowExec(SymExec):
         self.anchors = set(ANCHOR_NAMES) | set(anchors)   # functions bound by role: never read into a caller
         self.guard: list[str] = []      # catch levels of the enclosing try bodies
         self.unfollowed: set[str] = set()
+        # where an effect happens: enclosing try *bodies* (statement id, classes their handlers catch), enclosing
+        # try statements that have a `finally` (body, handlers, else), and the `finally` suites it lies in
+        self.tries: list[tuple[int, frozenset[str]]] = []
+        self.fins: list[int] = []
+        self.infinal: list[int] = []
+        self.exc_ops = ExcOps(set())    # .sources: the symbols standing for an exception of the finished task
+        self.exc_names: dict[str, str] = {}     # symbol -> the name the handler gave the exception
 
     # ------------------------------------------------------------------ helper resolution
     def helper_name(self, func: ast.AST) -> str | None:
@@ -153,6 +722,7 @@ class FollowExec(SymExec):
     # ------------------------------------------------------------------ effects carry the try context
     def _log(self, p: Path, orig: ast.AST, sub: ast.AST, lineno: int) -> None:
         n0 = len(p.effects)
+        self.may_raise(p, sub, lineno)
         super()._log(p, orig, sub, lineno)
         level = "B" if "B" in self.guard else "E" if "E" in self.guard else ""
         for e in p.effects[n0:]:
@@ -162,8 +732,81 @@ class FollowExec(SymExec):
                 if name is not None:
                     self.unfollowed.add(name)   # evaluated, but not walked (recursion, depth, arity ...)
 
+    # ------------------------------------------------------------------ operations on the caught exception that may raise
+    def may_raise(self, p: Path, sub: ast.AST, lineno: int) -> None:
+        """Log a 'mayraise' effect for every operation evaluated here, on a value derived from a caught
+        exception, that raises for some shape of that exception (ExcOps); the path conditions discharge
+        guarded uses."""
+        if not any(isinstance(n, ast.Name) and n.id in self.exc_ops.sources for n in ast.walk(sub)) and not any(
+                isinstance(n, ast.Attribute) and n.attr in ("exception", "exc_info") for n in ast.walk(sub)):
+            return
+        facts = [(atom, o) for k, _ko, atom, _ln, o in p.conds if not (isinstance(k, tuple) and k[:1] == ("except",))]
+        seen = {(e.text, e.lineno) for e in p.effects if e.kind == "mayraise"}
+        for node, errors, why in self.exc_ops.scan(sub, facts):
+            if (u(node), lineno) in seen:
+                continue
+            seen.add((u(node), lineno))
+            eff = Effect("mayraise", node, p.epoch, lineno)
+            eff.errors, eff.why = errors, why  # type: ignore[attr-defined]
+            p.effects.append(eff)
+
+    def show(self, node: ast.AST) -> str:
+        """Text of a substituted expression with the caught exception under the name its handler gave it."""
+        t = u(node)
+        for sym, name in self.exc_names.items():
+            t = t.replace(sym, name)
+        return t
+
+    def _call_helper(self, p: Path, call: ast.Call, target: Any, lineno: int) -> list[tuple[Path, ast.AST | None]]:
+        # the arguments are evaluated at the call; the engine logs only what is left of the expression after
+        # the helper was read in
+        for a in list(call.args) + [k.value for k in call.keywords]:
+            self.may_raise(p, a, lineno)
+        return super()._call_helper(p, call, target, lineno)
+
+    def _bind(self, p: Path, target: ast.AST, value: ast.AST, lineno: int) -> None:
+        if isinstance(target, (ast.Tuple, ast.List)) and not (
+                isinstance(value, (ast.Tuple, ast.List)) and len(value.elts) == len(target.elts)):
+            facts = [(atom, o) for _k, _ko, atom, _ln, o in p.conds]
+            s = self.exc_ops.shape(value, facts)
+            n = len(target.elts)
+            starred = any(isinstance(t, ast.Starred) for t in target.elts)
+            low, exact = _len_facts(u(value), facts)
+            if s == PARTS:
+                low, exact = 3, 3
+            if s is not None and s != INFO and not (exact == n and not starred) and not (starred and low >= n - 1):
+                eff = Effect("mayraise", ast.Assign(targets=[target], value=value, type_comment=None, lineno=lineno),
+                             p.epoch, lineno)
+                eff.errors = ("ValueError", "TypeError")  # type: ignore[attr-defined]
+                eff.why = (f"unpacking a value derived from the exception ({s}) into {n} names: the number of "  # type: ignore[attr-defined]
+                           "elements depends on the exception")
+                p.effects.append(eff)
+        super()._bind(p, target, value, lineno)
+
     # ------------------------------------------------------------------ statements
     def stmt(self, p: Path, s: ast.stmt) -> list[tuple[Path, str]]:
+        n0 = len(p.effects)
+        names: frozenset[str] | None = None
+        if isinstance(s, (ast.With, ast.AsyncWith)):
+            for item in s.items:
+                c = item.context_expr
+                if isinstance(c, ast.Call) and u(c.func).split(".")[-1] == "suppress":
+                    names = (names or frozenset()) | {u(a) for a in c.args}
+        if names is not None:
+            self.tries.append((id(s), names))
+        try:
+            out = self._stmt(p, s)
+        finally:
+            if names is not None:
+                self.tries.pop()
+        where = (tuple(self.tries), tuple(self.fins), tuple(self.infinal))
+        for q, _st in out:
+            for e in q.effects[n0:]:
+                if not hasattr(e, "where"):
+                    e.where = where  # type: ignore[attr-defined]
+        return out
+
+    def _stmt(self, p: Path, s: ast.stmt) -> list[tuple[Path, str]]:
         if isinstance(s, ast.Try):
             return self._try(p, s)
         if isinstance(s, ast.FunctionDef) and not s.decorator_list:
@@ -200,11 +843,24 @@ class FollowExec(SymExec):
             atom = ast.copy_location(ast.Compare(left=k, ops=[ast.In()], comparators=[coll]), s)
             ast.fix_missing_locations(atom)
             fact = (("in", u(k), u(coll)), atom)
+        caught: set[str] = set()
+        for h in s.handlers:
+            caught |= {"BaseException"} if h.type is None else {u(x) for x in h.type.elts} \
+                if isinstance(h.type, ast.Tuple) else {u(h.type)}
+        if s.finalbody:
+            self.fins.append(id(s))
+        n_entry = len(entry.effects)
         self.guard.append(level)
+        self.tries.append((id(s), frozenset(caught)))
         try:
             normal = self.block(p, s.body)
         finally:
             self.guard.pop()
+            self.tries.pop()
+        # the try asks for the outcome of a task: what its handlers catch is an exception of arbitrary shape
+        asks = any(e.kind == "call" and isinstance(e.node, ast.Call) and isinstance(e.node.func, ast.Attribute)
+                   and e.node.func.attr in ("result", "exception") and not e.node.args and not e.node.keywords
+                   for q, _st in normal for e in q.effects[n_entry:])
         if fact is not None:
             for q, _st in normal:   # the lookup succeeded
                 q.conds.append((fact[0], True, fact[1], ln, True))
@@ -226,15 +882,26 @@ class FollowExec(SymExec):
                 q.conds.append((fact[0], False, fact[1], h.lineno, False))
             q.epoch += 1
             if h.name:
-                q.env[h.name] = ast.Name(id=f"<exc {u(h.type)}@{h.lineno}>", ctx=ast.Load())
+                sym = f"<exc {u(h.type) if h.type is not None else 'BaseException'}@{h.lineno}>"
+                q.env[h.name] = ast.Name(id=sym, ctx=ast.Load())
+                self.exc_names[sym] = h.name
+                if asks:
+                    self.exc_ops.sources.add(sym)
             res.extend(self.block(q, h.body))
         out: list[tuple[Path, str]] = []
-        for q, st in res:
+        if s.finalbody:
+            self.fins.pop()
+            self.infinal.append(id(s))
+        try:
+            for q, st in res:
+                if s.finalbody:
+                    for q2, st2 in self.block(q, s.finalbody):
+                        out.append((q2, st if st2 == "next" else st2))
+                else:
+                    out.append((q, st))
+        finally:
             if s.finalbody:
-                for q2, st2 in self.block(q, s.finalbody):
-                    out.append((q2, st if st2 == "next" else st2))
-            else:
-                out.append((q, st))
+                self.infinal.pop()
         return out
 
     # ------------------------------------------------------------------ entry points
